@@ -289,6 +289,11 @@ def generate(repo, manifest):
     out.append("end MlsVerif.Gen.Schemas")
     out.insert(-1, "/-- indices (into `table`) of the schemas that contain a node whose Rust decoder is stricter than the derive layout -/")
     out.insert(-1, "def refinedIdx : List Nat := [" + ", ".join(str(i) for i, (ln, _, _, _) in enumerate(res.order) if ln in res.refined) + "]")
+    # fully expanded text form for the harness' structured input generator (one line per schema)
+    expanded = {}
+    for lean_name, key, expr, f in res.order:
+        expanded[lean_name] = re.sub(r"\bT_\w+", lambda m: expanded[m.group(0)], expr)
+    manifest["_schemas_txt"] = "".join(f"{key}\t{1 if ln in res.refined else 0}\t{expanded[ln]}\n" for (ln, key, _, _) in res.order)
     manifest["schemas"] = [{"name": key, "file": f, "refined": ln in res.refined} for (ln, key, _, f) in res.order]
     manifest["schemas_unresolved"] = unresolved
     return "\n".join(out) + "\n"
